@@ -395,7 +395,9 @@ Proof.
   - simpl. destruct (i_pshist I && fl_store fl); rewrite !app_nil_r; reflexivity.
   - inversion HF as [|? ? Hl HF']; subst. simpl ps_batch.
     destruct (ps_particle_returns m L lp r vec Hl) as [v Hv].
-    unfold ps_success at 1. simpl filter_map. unfold ps_success at 1.
+    simpl filter_map. simpl map.
+    assert (Es : ps_success N m L lp r vec = snd (ps_particle N m L lp r vec)) by reflexivity.
+    rewrite Es. clear Es.
     destruct (ps_particle N m L lp r vec) as [x rec] eqn:Ep. simpl in Hv. subst x. simpl fst. simpl snd.
     rewrite IH by assumption. simpl rev. rewrite <- !app_assoc. simpl.
     destruct rec as [[w ll]|]; simpl.
